@@ -97,6 +97,7 @@ func (ex *Exec) builtin(fr *frame, name string, args []Value, cc *ssa.CallCommon
 		if ch == nil {
 			panic(ex.rtPanic("close of nil channel"))
 		}
+		ex.noGuard("close")
 		if ch.Closed {
 			panic(&goPanic{runtime: "close of closed channel", where: ex.where(), val: IfaceV{T: types.Typ[types.String], V: ex.mkStr("close of closed channel")}})
 		}
@@ -303,6 +304,11 @@ func (ex *Exec) copyOp(dst SliceV, src Value) Value {
 // ---------- maps ----------
 
 func (ex *Exec) mapLog(m *MapObj) {
+	for _, lv := range ex.guards {
+		if m.id <= lv.objStart {
+			panic(&mergeAbort{"map mutation inside merge region"})
+		}
+	}
 	if m.base && ex.initMode == 0 {
 		ents := make([]mapEntry, len(m.Entries))
 		for i, e := range m.Entries {
@@ -471,6 +477,7 @@ type blockedErr struct{ what string }
 func (ex *Exec) sched() {}
 
 func (ex *Exec) chanSend(ch *ChanObj, v Value) {
+	ex.noGuard("channel send")
 	if ch == nil {
 		panic(&pathEnd{kind: "done", msg: "blocked forever: send on nil channel"})
 	}
@@ -492,6 +499,7 @@ func (ex *Exec) chanSend(ch *ChanObj, v Value) {
 }
 
 func (ex *Exec) chanRecv(ch *ChanObj, block bool) (Value, bool) {
+	ex.noGuard("channel receive")
 	if ch == nil {
 		panic(ex.unsupported("receive on nil channel blocks forever"))
 	}
@@ -518,6 +526,7 @@ type pendingGo struct {
 }
 
 func (ex *Exec) goStmt(fr *frame, cc *ssa.CallCommon) {
+	ex.noGuard("go statement")
 	args := make([]Value, 0, len(cc.Args)+1)
 	var fv *FuncV
 	if cc.IsInvoke() {
@@ -548,6 +557,7 @@ func (ex *Exec) runGoroutines() {
 }
 
 func (ex *Exec) selectOp(fr *frame, x *ssa.Select) Value {
+	ex.noGuard("select")
 	// ready cases, in order; nondeterministic choice among the ready ones
 	type st struct {
 		ch   *ChanObj
